@@ -406,7 +406,28 @@ func runC15(c *Ctx) {
 				if mi, ok := key.(*ssa.MakeInterface); ok {
 					key = mi.X
 				}
-				ok := core.IsNamed(key.Type(), pkWire, "ctxKey") && strings.HasPrefix(fn.Name(), "set")
+				// a setter: a one-block function that hands back the derived context and does nothing else with it
+				setter := fn.Parent() == nil && len(core.Calls(fn)) == 1
+				if setter {
+					hands, only := false, true
+					for _, r := range returns(fn) {
+						if len(r.Results) != 1 {
+							only = false
+							continue
+						}
+						_, isParam := r.Results[0].(*ssa.Parameter)
+						switch {
+						case r.Results[0] == ci.(ssa.Value):
+							hands = true
+						case isParam && isCtxType(r.Results[0].Type()):
+							// the unchanged context (nothing to store)
+						default:
+							only = false
+						}
+					}
+					setter = hands && only
+				}
+				ok := core.IsNamed(key.Type(), pkWire, "ctxKey") && setter
 				R.Check(ok, "C15.R2", fkey(fn)+":context-slot-writer", c.at(ci), "context slots are keyed by the unexported ctxKey type and written only by the setter functions", "context.WithValue with a ctxKey constant inside a setter", "context.WithValue outside the slot setters or with a foreign key type")
 			}
 		}
